@@ -138,6 +138,9 @@ func hC05Resp() {
 	isErr := verifChoose("error", 2) == 1
 	if isErr {
 		script.errCode, script.errMsg = 5, "nf"
+		if verifChoose("details", 2) == 1 {
+			script.details = []refDetail{{typ: "p.D", val: []byte{'v'}}}
+		}
 		script.errAfter = verifChoose("errAfter", 2)
 		if !(target == ProtocolGRPC || target == ProtocolGRPCWeb || (target == ProtocolConnect && !unaryKind)) {
 			script.errAfter = 0
